@@ -401,7 +401,9 @@ def random_spec(seed: int, profile: Optional[Dict[str, Any]] = None) -> Dict[str
     n_b = _pick(rnd, P["n_bases"])
     bases = []
     for i in range(n_b):
-        p = geo.anchor(geo.fresh())
+        # now and then two bases share one location (a depot entered as a charging area and a parking lot; the shipped
+        # denver_demo_fleets scenario has such a pair)
+        p = (bases[-1]["lat"], bases[-1]["lon"]) if bases and rnd.random() < P.get("colocated_bases", 0.15) else geo.anchor(geo.fresh())
         st = None
         if rnd.random() < 0.7:
             st = f"bs{i}"
